@@ -11,6 +11,7 @@ import (
 	"math"
 	"sort"
 	"sync"
+	"sync/atomic"
 )
 
 // NewListConvert creates a list containing the given elements if the elements
@@ -371,6 +372,26 @@ func recoverProducerPanic(p iterator.Producer[Value]) iterator.Producer[Value] {
 	}
 }
 
+// stoppable2 is used to combine two producers that are iterated in goroutines
+// of their own, which do not terminate if the consumer of the combined list
+// stops early: the goroutines would continue to iterate the complete lists.
+// Every time the combined producer is iterated, the two producers are wrapped
+// in a way that they stop at their next item as soon as this iteration is done.
+func stoppable2(a, b iterator.Producer[Value], combine func(a, b iterator.Producer[Value]) iterator.Producer[Value]) iterator.Producer[Value] {
+	return func(yield iterator.Consumer[Value]) {
+		var done atomic.Bool
+		defer done.Store(true)
+		untilDone := func(p iterator.Producer[Value]) iterator.Producer[Value] {
+			return func(yield iterator.Consumer[Value]) {
+				p(func(v Value, err error) bool {
+					return !done.Load() && yield(v, err)
+				})
+			}
+		}
+		combine(untilDone(a), untilDone(b))(yield)
+	}
+}
+
 func (l *List) Accept(sta funcGen.Stack[Value]) (*List, error) {
 	f, err := ToFunc("accept", sta, 1, 1)
 	if err != nil {
@@ -490,19 +511,24 @@ func (l *List) Merge(sta funcGen.Stack[Value]) (*List, error) {
 			// Both lists are iterated in their own goroutine, concurrently to the
 			// less function, which uses the stack st. Therefore, both lists need
 			// their own stack.
-			return iterator.Merge(recoverProducerPanic(l.iterable(funcGen.NewEmptyStack[Value]())), recoverProducerPanic(otherList.iterable(funcGen.NewEmptyStack[Value]())),
-				func(a, b Value) (bool, error) {
-					st.Push(a)
-					st.Push(b)
-					value, err2 := f.Func(st.CreateFrame(2), nil)
-					if err2 != nil {
-						return false, err2
-					}
-					if less, ok := value.(Bool); ok {
-						return bool(less), nil
-					} else {
-						return false, errors.New("function in merge needs to return a bool, (a<b)")
-					}
+			// These goroutines do not stop iterating if the merged list is not
+			// read to its end, so the lists are stopped here.
+			return stoppable2(recoverProducerPanic(l.iterable(funcGen.NewEmptyStack[Value]())), recoverProducerPanic(otherList.iterable(funcGen.NewEmptyStack[Value]())),
+				func(a, b iterator.Producer[Value]) iterator.Producer[Value] {
+					return iterator.Merge(a, b,
+						func(a, b Value) (bool, error) {
+							st.Push(a)
+							st.Push(b)
+							value, err2 := f.Func(st.CreateFrame(2), nil)
+							if err2 != nil {
+								return false, err2
+							}
+							if less, ok := value.(Bool); ok {
+								return bool(less), nil
+							} else {
+								return false, errors.New("function in merge needs to return a bool, (a<b)")
+							}
+						})
 				})
 		}), nil
 	} else {
